@@ -210,6 +210,7 @@ int creds_derive(const CredSet *good, const CredOpts *o, CredSet *cs)
 	if (o->prover == 0 && tlcp) append(chain, chain_len, &enc);
 	if (extra) append(chain, chain_len, &fake_ca);
 	for (int i = 0; i < depth - 1; i++) append(chain, chain_len, &sub[i]);
+	if (o->root_in_chain) append(chain, chain_len, &top);
 	if (o->prover == 0) { cs->srv_sign = leaf; if (tlcp) cs->srv_enc = enc; }
 	else cs->cli_sign = leaf;
 	cs->ok = *chain_len <= TLS_MAX_CERTIFICATES_SIZE;
